@@ -388,6 +388,132 @@ def generated_sidecar():
     return '\n'.join(type_sidecar(r) for r in KINDS) + '\n' + avp_name_sidecar()
 
 
+# ---------------------------------------------------------------------------------------------
+# Kani twins (DESIGN 2.6 step 2b): complete, loop-free harnesses on the REAL crate for the small fixed-layout functions.
+# They are run only when Verus fails an obligation of such a function; a twin that succeeds discharges the obligation
+# (the Verus failure is then a proof-robustness warning, e.g. after a bit-level rewrite), a twin that fails confirms it.
+def fixed_kinds():
+    out = []
+    for row in KINDS:
+        num, name, stem, priv, layout = row
+        if layout and all(it[0] in ('int', 'arr', 'res', 'enum') for it in layout) and name not in EXTERNAL_TRY_READ:
+            out.append(row)
+    return out
+
+
+TWIN_KIND = """#[kani::proof]
+#[kani::unwind(%(unwind)d)]
+fn %(h)s() {
+    let buf: [u8; %(cap)d] = kani::any();
+    let n: usize = kani::any();
+    kani::assume(n <= %(cap)d);
+    let mut r = SliceReader::from(&buf[..n]);
+    let res = %(name)s::try_read(&mut r);
+    if n < %(ml)d {
+        assert!(res == Err(DecodeError::IncompleteAVP(%(num)d)), "truncated payload is IncompleteAVP(kind)");
+        assert!(r.len() == n);
+    } else if !(%(accept)s) {
+        assert!(res.is_err(), "unassigned code point rejected");
+    } else {
+        let v = res.unwrap();
+        assert!(r.len() == n - %(ml)d, "consumes exactly the fixed layout");
+        assert!(super::QueryableAVP::get_length(&v) == %(ml)d, "get_length is the payload size");
+        let mut w = VecWriter::new();
+        super::WritableAVP::write(&v, &mut w);
+        let want: [u8; %(outn)d] = [0u8, %(num)du8, %(canon)s];
+        assert!(w.data.len() == %(outn)d, "attribute type + payload");
+        let mut i = 0;
+        while i < %(outn)d { assert!(w.data[i] == want[i], "re-encodes to the octets read (reserved octets zero)"); i += 1; }
+        // the decoded value is a function of the octets the layout names: decode(encode(v)) == v
+        let mut r2 = SliceReader::from(&w.data[2..]);
+        assert!(%(name)s::try_read(&mut r2) == Ok(v), "decode after encode returns the value");
+    }
+    kani::cover!(true);
+}"""
+
+TWIN_FIXED = """#[kani::proof]
+fn twin_mfl() {
+    let (m, h): (bool, bool) = (kani::any(), kani::any());
+    let len: usize = kani::any();
+    kani::assume(len <= 1023);
+    let r = AVP::make_flags_and_length(m, h, len);
+    assert!(r[0] as usize == ((len / 256) % 4) * 64 + (m as usize) + 2 * (h as usize));
+    assert!(r[1] as usize == len % 256);
+    kani::cover!(true);
+}
+#[kani::proof]
+#[kani::should_panic]
+fn twin_mfl_refuses() {
+    let len: usize = kani::any();
+    kani::assume(len > 1023);
+    let _ = AVP::make_flags_and_length(kani::any(), kani::any(), len);
+}
+#[kani::proof]
+#[kani::unwind(10)]
+fn twin_hdr() {
+    let buf: [u8; 8] = kani::any();
+    let n: usize = kani::any();
+    kani::assume(n <= 8);
+    let mut r = SliceReader::from(&buf[..n]);
+    let res = Header::try_read(&mut r);
+    if n < 6 {
+        assert!(res.is_none() && r.len() == n);
+    } else {
+        assert!(r.len() == n - 6);
+        let total = ((buf[0] as u16) / 64) * 256 + buf[1] as u16;
+        match res {
+            None => assert!(false, "six octets are a header"),
+            Some(Err(_)) => assert!(total < 6),
+            Some(Ok(h)) => {
+                assert!(total >= 6);
+                assert!(h.payload_length == total - 6);
+                assert!(h.vendor_id == ((buf[2] as u16) << 8) | buf[3] as u16);
+                assert!(h.attribute_type == ((buf[4] as u16) << 8) | buf[5] as u16);
+                assert!(h.flags.is_hidden() == ((buf[0] / 2) % 2 == 1));
+                assert!(h.flags.is_mandatory() == (buf[0] % 2 == 1));
+            }
+        }
+    }
+    kani::cover!(true);
+}"""
+
+
+def kani_twins():
+    """Returns (rust source, {harness name: [function keys it discharges]})."""
+    src = ['\n// ---- generated Kani twins (vf/spec_table.py) ------------------------------------------------------------']
+    twins = {}
+    for num, name, stem, priv, layout in fixed_kinds():
+        ml = min_len(layout)
+        canon = []
+        enum_checks = []
+        off = 0
+        for it in layout:
+            if it[0] == 'res':
+                canon += ['0u8'] * it[1]
+                off += it[1]
+            elif it[0] == 'enum':
+                codes = [c for _, c in ENUMS[it[1]][1]]
+                enum_checks.append('(((buf[%d] as u16) << 8) | buf[%d] as u16, [%s])' % (off, off + 1, ', '.join('%du16' % c for c in codes)))
+                canon += ['buf[%d]' % off, 'buf[%d]' % (off + 1)]
+                off += 2
+            else:
+                w = it[1]
+                canon += ['buf[%d]' % (off + k) for k in range(w)]
+                off += w
+        accept = ' && '.join('{ let (code, ok) = %s; ok.contains(&code) }' % e for e in enum_checks) or 'true'
+        h = 'twin_kind_%d' % num
+        src.append(TWIN_KIND % {'h': h, 'cap': ml + 2, 'ml': ml, 'num': num, 'name': name, 'accept': accept, 'outn': ml + 2,
+                                'canon': ', '.join(canon), 'unwind': ml + 6})
+        mod = 'message::avp::types::%s' % stem
+        twins[h] = ['%s::%s::try_read' % (mod, name), '%s::<%s as WritableAVP>::write' % (mod, name),
+                    '%s::<%s as QueryableAVP>::get_length' % (mod, name)]
+    src.append(TWIN_FIXED)
+    twins['twin_mfl'] = ['message::avp::AVP::make_flags_and_length']
+    twins['twin_mfl_refuses'] = ['message::avp::AVP::make_flags_and_length']
+    twins['twin_hdr'] = ['message::avp::header::Header::try_read']
+    return '\n'.join(src) + '\n', twins
+
+
 if __name__ == '__main__':
     print(generated_spec())
     print(generated_sidecar())
